@@ -96,7 +96,7 @@ UpperBoundPre(g, n, d) == \E e \in Els(g.edges) : e.f = n /\ g.nodes[e.t].name =
 StalePre(U, g, n, d) == \E e \in Els(g.edges) : e.f = n /\ g.nodes[e.t].name = d.name /\ e.r = d.r /\ IsPre(g.nodes[e.t].v) /\ RawSat[d.r][g.nodes[e.t].v]
                               /\ \E s \in StaleSrc(U, g, d.name) : NamesPre(s.r) /\ RawSat[s.r][g.nodes[e.t].v]
 \* (b) the edge's marker is false for the extras requested in the graph, but true with the extras an abandoned version requested
-StaleExtras(U, g, e) == \E d \in DepsOf(U, g.nodes[e.f]) : d.name = g.nodes[e.t].name /\ d.r = e.r /\ d.m # 0
+StaleExtras(U, g, e) == \E d \in DepsOf(U, g.nodes[e.f]) : d.name = g.nodes[e.t].name /\ d.r = e.r /\ d.m = e.m /\ d.m # 0
                               /\ \E s \in StaleSrc(U, g, g.nodes[e.f].name) : MEval(PM[d.m], ExtrasAt(g, e.f) \cup Els(s.extras))
 PipViolations(U, root, g) ==
      {<<"two-versions-of-one-package", i>> : i \in {i \in 1..Len(g.nodes) : \E j \in 1..Len(g.nodes) : j # i /\ g.nodes[j].name = g.nodes[i].name}}
@@ -109,8 +109,8 @@ PipViolations(U, root, g) ==
                                                       /\ SatPip(d.r, g.nodes[e.t].v, HaveOf(U, d.name), {x.r : x \in {y \in Els(g.edges) : y.t = e.t}})}} : n \in 1..Len(g.nodes)}
   \cup {<<IF StaleExtras(U, g, g.edges[i]) THEN "edge-from-extra-guarded-requirement-enabled-by-an-abandoned-version" ELSE "edge-from-false-marker-requirement", i>> :
           i \in {i \in 1..Len(g.edges) : LET e == g.edges[i] IN
-          (\E d \in DepsOf(U, g.nodes[e.f]) : d.name = g.nodes[e.t].name /\ d.r = e.r)
-          /\ ~\E d \in Active(U, g, e.f) : d.name = g.nodes[e.t].name /\ d.r = e.r}}
+          (\E d \in DepsOf(U, g.nodes[e.f]) : d.name = g.nodes[e.t].name /\ d.r = e.r /\ d.m = e.m)      \* the edge is this declaration (same marker)
+          /\ ~\E d \in Active(U, g, e.f) : d.name = g.nodes[e.t].name /\ d.r = e.r /\ d.m = e.m}}
   \cup {<<"unreachable-node", n>> : n \in (1..Len(g.nodes)) \ Reach(g, {1})}
   \* the root is what is being installed: an edge leaving the root node that the root VERSION does not declare (but another
   \* version of the root package does) means the root was replaced in all but name
@@ -118,5 +118,5 @@ PipViolations(U, root, g) ==
           /\ ~(\E d \in DepsOf(U, g.nodes[1]) : d.name = g.nodes[e.t].name /\ d.r = e.r)
           /\ \E ov \in Els(PkgRec(U, root.name).versions) : ov.v # root.v /\ \E d \in Els(ov.deps) : d.name = g.nodes[e.t].name /\ d.r = e.r}}
 \* informational (not part of C08): an edge the selected version of its source never declared
-UndeclaredEdges(U, g) == {i \in 1..Len(g.edges) : ~\E d \in DepsOf(U, g.nodes[g.edges[i].f]) : d.name = g.nodes[g.edges[i].t].name /\ d.r = g.edges[i].r}
+UndeclaredEdges(U, g) == {i \in 1..Len(g.edges) : ~\E d \in DepsOf(U, g.nodes[g.edges[i].f]) : d.name = g.nodes[g.edges[i].t].name /\ d.r = g.edges[i].r /\ d.m = g.edges[i].m}
 =============================================================================
